@@ -15,17 +15,25 @@ from __future__ import annotations
 import copy as _copy
 from typing import Any, Dict, List
 
-from .common import call, same, is_symbolic, PathAbort, mk_array
+from .common import call, same, close, is_symbolic, PathAbort, mk_array, replay_tiers
 from .c16 import FakeParameters, FakeParam, FakeFit
 
 PROP = "C08"
 
 
 # --------------------------------------------------------------------------- symbolic data sets
-def make_data(eng, n_unmasked: int, n_masked: int):
+def make_data(eng, n_unmasked: int, n_masked: int, concrete: bool = False):
     """descending symbolic frequencies, symbolic impedances, a mask; masked variables are named m.*"""
     from pyimpspec.data.data_set import DataSet
     n = n_unmasked + n_masked
+    if concrete:
+        fs = [float(2 ** (n - i)) for i in range(n)]
+        # points whose modulus and inverse squared modulus are exact in binary floating point (concrete floats are read as
+        # exact rationals, so 1/25 computed in floats would differ from the rational 1/25)
+        zs = [(4 + 0j, -2j, 8j, -16 + 0j, 0.5j, 32 + 0j)[i] for i in range(n)]
+        masked_idx = {1, 3} if n_masked == 2 else ({1} if n_masked == 1 else set())
+        d = DataSet(list(fs), list(zs), mask={i: True for i in masked_idx}, label="data")
+        return d, fs, zs, [i for i in range(n) if i not in masked_idx]
     masked_idx = {1, 3} if n_masked == 2 else ({1} if n_masked == 1 else set())
     masked_idx = {i for i in masked_idx if i < n}
     while len(masked_idx) < n_masked:
@@ -135,17 +143,17 @@ def check_result(eng, res, d, fs, zs, unmasked, tag, chisqr_is_sum=True, circuit
     for k, i in enumerate(unmasked):
         eng.check(same(F[k], fs[i]), tag + ":frequencies are the unmasked frequencies of the input")
         want = (zs[i] - Zf[k]) / abs(zs[i])
-        eng.check(same(R[k], want), tag + ":residuals are (Z_data - Z_model)/|Z_data|", lambda: "point %d: %r vs %r" % (k, R[k], want))
+        eng.check(close(R[k], want), tag + ":residuals are (Z_data - Z_model)/|Z_data|", lambda: "point %d: %r vs %r" % (k, R[k], want))
         # |residual|^2 = |Z_data - Z_model|^2 / |Z_data|^2 with |z|^2 = re^2 + im^2 (the defining axiom of the modulus atom)
         dz = zs[i] - Zf[k]
         tot = tot + (dz.real * dz.real + dz.imag * dz.imag) / (zs[i].real * zs[i].real + zs[i].imag * zs[i].imag)
     if chisqr_is_sum:
-        eng.check(same(res.pseudo_chisqr, tot), tag + ":pseudo chi-squared is the sum of the squared moduli of the residuals",
+        eng.check(close(res.pseudo_chisqr, tot), tag + ":pseudo chi-squared is the sum of the squared moduli of the residuals",
                   lambda: "%r vs %r" % (res.pseudo_chisqr, tot))
     if circuit is not None:
         Zc = list(circuit.get_impedances(mk_array(eng, [fs[i] for i in unmasked])).flat)
         for k in range(len(unmasked)):
-            eng.check(same(Zf[k], Zc[k]), tag + ":reported impedances are the attached circuit's impedance")
+            eng.check(close(Zf[k], Zc[k]), tag + ":reported impedances are the attached circuit's impedance")
     for name in ("frequencies", "impedances", "residuals", "pseudo_chisqr"):
         check_no_masked(eng, getattr(res, name), tag)
 
@@ -233,13 +241,13 @@ def make_zhit_harness(admittance: bool):
 
 
 # --------------------------------------------------------------------------- circuit fitting
-def make_fit_harness(cdc: str, with_expr: bool):
+def make_fit_harness(cdc: str, with_expr: bool, methods=("leastsq",)):
     def harness(eng):
         import lmfit
         import pyimpspec.analysis.fitting as fit
         from pyimpspec import parse_cdc
         eng.div_zero_policy = "assume"
-        d, fs, zs, unmasked = make_data(eng, 3, 1)
+        d, fs, zs, unmasked = make_data(eng, 3, 1, concrete=len(methods) > 1)
         before = snapshot(d)
         circuit = parse_cdc(cdc)
         start: Dict[Any, Dict[str, Any]] = {}
@@ -262,13 +270,16 @@ def make_fit_harness(cdc: str, with_expr: bool):
         if with_expr and len(names) >= 2:
             exprs = {names[1]: "2 * %s" % names[0]}
 
+        begun = []
+
         def minimize(fn, params, method=None, args=(), max_nfev=None, **kw):
             # lmfit's contract: varied parameters end inside [min, max], fixed ones keep their value, expr parameters follow their expression
+            begun.append({nm: p.value for nm, p in params.items() if p.expr is None})
             for nm, p in params.items():
                 if p.expr is not None:
                     continue
                 if p.vary:
-                    w = eng.real("w." + nm)
+                    w = eng.real(("w." if len(begun) == 1 else "w%d." % len(begun)) + nm)
                     if p.min is not None and not (isinstance(p.min, float) and p.min == float("-inf")):
                         eng.assume(w >= p.min)
                     if p.max is not None and not (isinstance(p.max, float) and p.max == float("inf")):
@@ -285,7 +296,8 @@ def make_fit_harness(cdc: str, with_expr: bool):
         saved = (lmfit.minimize, lmfit.Parameters)
         lmfit.minimize, lmfit.Parameters = minimize, FakeParameters
         try:
-            ok, res = call(fit.fit_circuit, circuit, d, method="leastsq", weight="boukamp", num_procs=1, constraint_expressions=exprs or None)
+            ok, res = call(fit.fit_circuit, circuit, d, method=methods[0] if len(methods) == 1 else list(methods), weight="boukamp", num_procs=1,
+                           constraint_expressions=exprs or None)
         finally:
             lmfit.minimize, lmfit.Parameters = saved
         if not eng.possible(True):
@@ -293,6 +305,10 @@ def make_fit_harness(cdc: str, with_expr: bool):
         eng.check(ok, "fit:completes", lambda: "%s: %s" % (type(res).__name__, res))
         if not ok:
             return
+        eng.check(len(begun) == len(methods), "fit:one fit per method/weight combination")
+        for later in begun[1:]:
+            for nm, v in later.items():
+                eng.check(same(v, begun[0][nm]), "fit:every method/weight combination starts from the values of the circuit passed in", lambda: nm)
         check_result(eng, res, d, fs, zs, unmasked, "fit", circuit=res.circuit)
         same_snapshot(eng, before, snapshot(d), "fit")
         # the circuit passed in is left untouched
@@ -360,6 +376,14 @@ def obligations(tier: str):
                               stubs=["lmfit.minimize replaced by its contract: varied parameters end anywhere inside [min, max], fixed ones keep their value, "
                                      "expr parameters follow their expression; lmfit.Parameters is a name->parameter mapping"],
                               expect_reach=["fit"], mode="fresh", max_paths=1000000))
+    for cdc, ms in ((("R", ("leastsq", "nelder")),) if tier == "quick" else (("R", ("leastsq", "nelder", "powell")), ("RC", ("leastsq", "nelder")))):
+        obs.append(Obligation("fit.%s.multi" % cdc, make_fit_harness(cdc, False, ms),
+                              bounds="fit_circuit(%s), methods %s tried one after the other in the calling process (num_procs=1), weight boukamp; start values, limits, fixed "
+                                     "flags symbolic; 3 unmasked + 1 masked concrete points" % (cdc, "/".join(ms)),
+                              functions=common + [fit.fit_circuit, fit._fit_process, fit._to_lmfit, fit._from_lmfit, fit._residual, fit._convert_intermediate_result,
+                                                  fit._extract_parameters],
+                              stubs=["lmfit.minimize replaced by its contract (a fresh set of fitted values per call)", "ln is strictly increasing (sort key)"],
+                              expect_reach=["fit"], mode="fresh", max_paths=1000000))
     for o in obs:
         o.replay = o.harness
     return obs
@@ -376,7 +400,7 @@ OUTSIDE = ["DRT result classes (BHT, TR-RBF, m(RQ)-fit, TR-NNLS, LM)", "the numb
 
 def replay(obligation: str, witness):
     from sx.concrete import run_concrete
-    for tier in ("thorough", "quick"):
+    for tier in replay_tiers():
         for ob in obligations(tier):
             if ob.name == obligation:
                 reproduced, msg, _ = run_concrete(ob.harness, witness)
